@@ -303,6 +303,16 @@ NormProps(ps) == SelectSeq(ps, LAMBDA pr : ~IsDefault(pr))
 Normalize(p) == [p EXCEPT !.props = NormProps(@), !.cn.wprops = NormProps(@)]
 Equiv(p, q) == Normalize(p) = Normalize(q)
 
+(* canonical form of byte strings inside a packet: only runs of 16 or more bytes stay abbreviated  *)
+(* (the Go side abbreviates exactly the maximal runs of >= 16 equal bytes); Take may leave shorter  *)
+(* run pieces when a run of the input crosses a field boundary                                      *)
+CanonB(s) == Flat([i \in 1..Len(s) |-> IF s[i] > 255 /\ SegLen(s[i]) < 16 THEN [j \in 1..SegLen(s[i]) |-> SegByte(s[i])] ELSE <<s[i]>>])
+CanonPs(ps) == [i \in 1..Len(ps) |-> [ps[i] EXCEPT !.s = CanonB(@), !.t = CanonB(@)]]
+CanonPkt(p) == [p EXCEPT !.topic = CanonB(@), !.payload = CanonB(@), !.codes = CanonB(@), !.props = CanonPs(@),
+                         !.filters = [i \in 1..Len(@) |-> [@[i] EXCEPT !.f = CanonB(@)]],
+                         !.cn = [@ EXCEPT !.cid = CanonB(@), !.wtopic = CanonB(@), !.wpay = CanonB(@), !.user = CanonB(@),
+                                          !.pass = CanonB(@), !.wprops = CanonPs(@)]]
+
 -----------------------------------------------------------------------------
 (* PARSER.  State st = [s: bytes left, pos: bytes consumed, marks: length fields seen so far].      *)
 (* A mark [pos, k, w] records the offset (0 based, in the whole packet) of a length field: k = "u16" *)
@@ -313,7 +323,10 @@ Equiv(p, q) == Normalize(p) = Normalize(q)
 (*   "utf8"    ill-formed string                                                                   *)
 (*   "other"   any other rule of the standard on a single packet (flags, unknown / misplaced /      *)
 (*             duplicated property, surplus bytes, reserved bits, empty filter list, ...)          *)
-Fail(why) == [ok |-> FALSE, why |-> why]
+(* Field where: "block" when the failure arose inside a property block (the block is the container *)
+(* of its values: a value that runs past the end of the block is a length failure even when the    *)
+(* packet has more bytes), else "packet".                                                          *)
+Fail(why) == [ok |-> FALSE, why |-> why, where |-> "packet"]
 Adv(st, t, n) == [st EXCEPT !.s = t.r, !.pos = @ + n]
 
 RECURSIVE Expand(_)
@@ -377,7 +390,7 @@ RdProps(st, ctx) ==
      ELSE LET blk == RdBytes(l.st, l.v)
           IN IF ~blk.ok THEN blk
              ELSE LET inner == RdPropList([s |-> blk.v, pos |-> l.st.pos, marks |-> l.st.marks], ctx, <<>>)
-                  IN IF ~inner.ok THEN inner
+                  IN IF ~inner.ok THEN [inner EXCEPT !.where = "block"]      \* e.g. a value that does not fit INSIDE the block
                      ELSE [ok |-> TRUE, why |-> "", v |-> Canon(inner.v),
                            st |-> [blk.st EXCEPT !.marks = inner.st.marks]]
 
